@@ -244,7 +244,14 @@ def clf_group(name, seed, geom, pattern, encs):
     try:
         for enc in encs:
             ename, classes, ml, dt = enc
-            clf = CLFS[name](classes, ml, seed)
+            fresh = CLFS[name](classes, ml, seed)
+            if seed % 3 == 1 and obs:
+                # ONE object for all encodings, re-configured through set_params with the constructor parameters of
+                # a fresh object of the new encoding: whatever the previous fit derived from the old encoding
+                # (encoders, copies of nested estimators) must be replaced by the next fit
+                clf.set_params(**fresh.get_params(deep=False))
+            else:
+                clf = fresh
             y = encode(y_abs, enc)
             if multi:
                 y2 = encode(np.where(rng.rand(n) < 0.3, -1, y_abs) if False else y_abs, enc)
@@ -272,7 +279,8 @@ def clf_group(name, seed, geom, pattern, encs):
                    "encoding": encs[len(obs)][0] if len(obs) < len(encs) else "-"}]
     return {"id": "clf:%s/%s-%s/seed%d" % (name, geom, pattern, seed), "band": BAND, "events": events,
             "concrete": {"subject": "clf:" + name, "seed": seed, "geometry": geom, "label_pattern": pattern,
-                         "encodings": [e[0] for e in encs], "X": X.tolist(), "y_abstract": y_abs.tolist()}}
+                         "encodings": [e[0] for e in encs], "X": X.tolist(), "y_abstract": y_abs.tolist(),
+                         "one_object_reconfigured_by_set_params": seed % 3 == 1}}
 
 
 def stream_makers():
